@@ -3,7 +3,7 @@ From Coq Require Import List ZArith NArith Bool.
 Import ListNotations.
 From SAV.base Require Import Tree.
 From SAV.sql Require Import Val3 InList.
-From SAV.orm Require Import Evaluator.
+From SAV.orm Require Import Evaluator FetchSync.
 Open Scope Z_scope.
 
 (* the mapped class of the harness: x, y Integer; s, t String *)
@@ -108,6 +108,59 @@ Fixpoint update_all (sc : schema) (crit : ex) (sets : list (nat * ex)) (os : lis
 Definition of_dres (d : dres) (o : obj) : tree :=
   match d with DKeep o' => L [I 0; of_obj o'] | DRemoved => L [I 1] | DRaise _ => L [I 0; of_obj o] end.
 
+(* ---- the composite primary key family: mapped class with primary key columns 0..k-1 (Integer, table
+   order), role (String, column k), level (Integer, column k+1) and mapper primary_key = mpk ---- *)
+Definition sck (k : nat) : schema := fun c => if Nat.eqb c k then TyStr else TyInt.
+Definition of_obj_n (n : nat) (o : obj) : tree := L (map (fun c => of_attr (o c)) (seq 0 n)).
+Definition of_row_n (n : nat) (r : row) : tree := L (map (fun c => of_sv' (r c)) (seq 0 n)).
+Fixpoint fetch_update_all (sc : schema) (m : mapping) (keys : list (list sv)) (sets : list (nat * ex)) (rows : list row)
+  : list obj * option pyexn :=
+  match rows with
+  | [] => ([], None)
+  | r :: rest =>
+      match fetch_update_obj sc m keys sets r with
+      | OOk o' => let (os, e) := fetch_update_all sc m keys sets rest in (o' :: os, e)
+      | ORaise e => (map obj_of (r :: rest), Some e)
+      end
+  end.
+
+(* input  L [9; strategy; op; k; mpk; crit; sets; rows]
+     strategy 0 'evaluate', 1 'fetch' (RETURNING), 2 'fetch' on a dialect without RETURNING (SELECT of the
+     primary keys before the statement), 3 'auto';  op 0 UPDATE / 1 DELETE
+   output L [status; session; db]  (per object / row, in table primary key order) *)
+Definition run_pk_case (strat op : Z) (k : nat) (mpk0 : list nat) (crit : ex) (sets : list (nat * ex)) (rows : list row) : tree :=
+  let sc := sck k in
+  let n := (k + 2)%nat in
+  let m := {| tpk := seq 0 k; mpk := mpk0; sub_table := false |} in
+  let os := map obj_of rows in
+  let same_sess := L (map (fun o => L [I 0; of_obj_n n o]) os) in
+  let same_db := L (map (fun r => L [I 0; of_row_n n r]) rows) in
+  let use_eval := Z.eqb strat 0 || (Z.eqb strat 3 && check sc crit) in
+  if Z.eqb strat 0 && negb (check sc crit) then L [I 1; same_sess; same_db]
+  else if Z.eqb op 0 then
+    let db := L (map (fun r => L [I 0; of_row_n n (update_row crit sets r)]) rows) in
+    if use_eval then
+      match all_matched sc crit os with
+      | Some e => L [I (of_exn e); same_sess; db]
+      | None => let (os', e) := update_all sc crit sets os in
+                L [I (match e with Some x => of_exn x | None => 0 end); L (map (fun o => L [I 0; of_obj_n n o]) os'); db]
+      end
+    else
+      let keys := fetch_keys m (negb (Z.eqb strat 2)) crit rows in
+      let (os', e) := fetch_update_all sc m keys sets rows in
+      L [I (match e with Some x => of_exn x | None => 0 end); L (map (fun o => L [I 0; of_obj_n n o]) os'); db]
+  else
+    let db := L (map (fun r => if delete_row crit r then L [I 1] else L [I 0; of_row_n n r]) rows) in
+    let enc d o := match d with DKeep o' => L [I 0; of_obj_n n o'] | DRemoved => L [I 1] | DRaise _ => L [I 0; of_obj_n n o] end in
+    if use_eval then
+      match all_matched sc crit os with
+      | Some e => L [I (of_exn e); same_sess; db]
+      | None => L [I 0; L (map (fun o => enc (delete_obj sc crit o) o) os); db]
+      end
+    else
+      let keys := fetch_keys m (negb (Z.eqb strat 2)) crit rows in
+      L [I 0; L (map (fun r => enc (fetch_delete_obj m keys r) (obj_of r)) rows); db].
+
 (* input  L [op; crit; sets; rows; expire; validate]
      op 0: UPDATE .. SET sets WHERE crit   1: DELETE WHERE crit   (synchronize_session='evaluate')
      rows: the table (one mapped object per row, loaded in the session); expire: attributes expired on
@@ -119,6 +172,11 @@ Definition of_dres (d : dres) (o : obj) : tree :=
      session: per object  [0; attrs] / [1] (removed)             db: per row  [0; values] / [1] (deleted) *)
 Definition run_case (t : tree) : tree :=
   match t with
+  | L [I 9; I strat; I op; tk; tmpk; tcrit; tsets; trows] =>
+      match as_nat tk, as_list_of as_nat tmpk, as_ex tcrit, as_list_of as_set tsets, as_list_of as_row trows with
+      | Some k, Some mpk0, Some crit, Some sets, Some rows => run_pk_case strat op k mpk0 crit sets rows
+      | _, _, _, _, _ => bad_input
+      end
   | L [I op; tcrit; tsets; trows; texp; I validate] =>
       match as_ex tcrit, as_list_of as_set tsets, as_list_of as_row trows, as_list_of as_nat texp with
       | Some crit, Some sets, Some rows, Some exp =>
